@@ -145,6 +145,10 @@ class Module:
         if name is not None and val.name is not None:  # Both set, fail.
             msg = f"{val} with conflicting names {name} and {val.name} cannot be added to Module {self.name}"
             raise RuntimeError(msg)
+        if (name if name is not None else val.name) in _banned:
+            # Same rule as for attribute-assignment: these are the Module's own attributes.
+            msg = f"Error attempting to over-write protected attribute {name or val.name} of Module {self}"
+            raise RuntimeError(msg)
         if name is not None:  # One or the other set - great.
             val.name = name
 
